@@ -95,6 +95,14 @@ structure Tk (l : Lexer) (P suf : List Char) : Prop where
   ready : Ready file l
   state : l.state = .ground
 
+theorem posN_of_fields {l l' : Lexer} {P rest : List Char} (hp : PosN l P rest) (hc : l'.col = l.col)
+    (ht : l'.tcol = l.tcol) : PosN l' P rest := by
+  unfold PosN at hp ⊢
+  split at hp
+  · trivial
+  · rw [hc, ht]; exact hp
+  · exact ⟨hc.trans hp.col, ht.trans hp.tcol⟩
+
 /-- a token is queued, the lexer is in the ground state behind it: `NextToken` hands it out -/
 theorem finish (f : Nat) (l2 : Lexer) (t : Token) (P' rest : List Char) (hi : l2.items = [t])
     (hst : l2.state = .ground) (hc : Cur l2 P' rest) (hp : PosN l2 P' rest) (he : l2.errout = [])
@@ -102,16 +110,7 @@ theorem finish (f : Nat) (l2 : Lexer) (t : Token) (P' rest : List Char) (hi : l2
     (nextTokenLoop (f + 1) l2).1 = some t ∧ Gnd file (nextTokenLoop (f + 1) l2).2 P' rest ∧
     (nextTokenLoop (f + 1) l2).2.inPattern = l2.inPattern := by
   rw [nextTokenLoop_pop1 f l2 t hi]
-  refine ⟨rfl, ⟨⟨hc.before, hc.rest, hc.line⟩, ?_, ⟨rfl, he, hn, hf, hfile⟩, hst⟩, rfl⟩
-  unfold PosN at hp ⊢
-  split
-  · trivial
-  · rename_i heq; rw [heq] at hp; exact hp
-  · rename_i h1 h2
-    split at hp
-    · rename_i heq; exact absurd heq (h1 _)
-    · rename_i heq; exact absurd heq (h2 _)
-    · exact ⟨hp.col, hp.tcol⟩
+  exact ⟨rfl, ⟨⟨hc.before, hc.rest, hc.line⟩, posN_of_fields hp rfl rfl, ⟨rfl, he, hn, hf, hfile⟩, hst⟩, rfl⟩
 
 /-- `setState .ground (emitText …)`: the fields -/
 theorem emitted (c : Code) (tb : List UInt8) (l : Lexer) (hi : l.items = []) :
@@ -126,14 +125,6 @@ theorem emitted (c : Code) (tb : List UInt8) (l : Lexer) (hi : l.items = []) :
     (setState .ground (emitText c tb l)).inPattern = l.inPattern := by
   obtain ⟨e1, e2, e3, e4, e5, e6, e7, e8, e9, e10, _, _⟩ := emitText_frame c tb l
   exact ⟨emitText_items c tb l hi, rfl, e1, e2, e3, e4, e5, e6, e7, e8, e9, e10⟩
-
-theorem posN_of_fields {l l' : Lexer} {P rest : List Char} (hp : PosN l P rest) (hc : l'.col = l.col)
-    (ht : l'.tcol = l.tcol) : PosN l' P rest := by
-  unfold PosN at hp ⊢
-  split
-  · trivial
-  · rw [hc, ht]; exact hp
-  · exact ⟨hc.trans hp.col, ht.trans hp.tcol⟩
 
 /-- `;`, `{`, `}` -/
 theorem punct_case (b : Bool) (f : Nat) (l : Lexer) (P r : List Char) (c : Char) (ht : text = P ++ c :: r)
@@ -152,9 +143,8 @@ theorem punct_case (b : Bool) (f : Nat) (l : Lexer) (P r : List Char) (c : Char)
   have hr1 : Ready file (next l).2 := n5.ready hk.ready
   obtain ⟨e1, e2, e3, e4, e5, e6, e7, e8, e9, e10, e11, e12⟩ :=
     emitted (.punct (UInt8.ofNat c.toNat)) (encodeChars [c]) (next l).2 hr1.items
-  have htok : ({ code := Code.punct (UInt8.ofNat c.toNat), text := encodeChars [c], file := (next l).2.file,
-      line := (next l).2.sline, col := (next l).2.scol + 1 } : Token) =
-      conv text file ⟨tk, text.length - (r.length + 1)⟩ := by
+  have htok : Token.mk (Code.punct (UInt8.ofNat c.toNat)) (encodeChars [c]) (next l).2.file (next l).2.sline
+      ((next l).2.scol + 1) = conv text file ⟨tk, text.length - (r.length + 1)⟩ := by
     rw [← tok_eq text file P r c ht tk _ _ (n5.sline.trans hk.sline) (n5.scol.trans hk.scol), hr1.file]
     rcases hc with ⟨h1, h2⟩ | ⟨h1, h2⟩ | ⟨h1, h2⟩ <;> (rw [h1, h2]; rfl)
   rw [htok] at e1
